@@ -49,6 +49,53 @@ def check_coord(ctx, out, rule="C01.coord"):
     out.inst(rule, n, 3, samples)
 
 
+def check_skipfile(ctx, out, rule="C01.skipfile"):
+    """Every file section of the diff contributes its line changes, except sections that delete the
+    whole file: in the loop over the PatchSet, the `insert` into the result is control-dependent only
+    on unidiff's own `is_removed_file()` being false (helpers are looked through by inlining)."""
+    n = 0
+    cands = []
+    for b0 in diff_bodies(ctx):
+        if b0.promoted is not None or b0.coroutine or not any(callee_matches(t, r"unidiff::PatchSet as std::(str::FromStr|iter::IntoIterator)>") for bi, t in b0.calls()):
+            continue
+        b = ctx.inl(b0)
+        cfg = cfg_of(b)
+        loops = [(h, blocks, nb) for h, blocks, nb in util.loop_of_next(ctx, b, r"PatchSet|PatchedFile") if "PatchedFile" in (b.blocks[nb]["term"].get("arg_tys") or [""])[0] or True]
+        ins = [(bi, t) for bi, t in b.calls() if callee_matches(t, r"HashMap::<K, V, S, A>::(insert|entry)$")
+               and re.search(r"LineChange", " ".join(t.get("arg_tys") or []))]
+        if not loops:
+            continue
+        cands.append(b0.id)
+        h, blocks, nb = loops[0]
+        region = util.iter_region(b, nb) | set(blocks)
+        ins = [(bi, t) for bi, t in ins if bi in region]
+        if len(ins) != 1:
+            out.viol(rule, "%s|insert-count" % rule, ctx.where(b0), "expected one insertion of a file's line changes per file section, found %d" % len(ins))
+            continue
+        ibi, it = ins[0]
+        ok = True
+        seen_removed = False
+        for br, vals, e in util.guards(ctx, b, ibi):
+            if br not in region:
+                continue
+            txt = render(e, 200)
+            if e[0] == "call" and re.search(r"^unidiff::PatchedFile::is_removed_file$", e[1]):
+                if vals == {0}:
+                    seen_removed = True
+                else:
+                    ok = False
+                    out.viol(rule, "%s|polarity" % rule, ctx.where(b0, it["span"]), "line changes are recorded only for REMOVED files")
+                continue
+            if e[0] == "discr" and re.search(r"Iterator>?::next\(", txt):
+                continue
+            ok = False
+            out.viol(rule, "%s|extra-skip" % rule, ctx.where(b0, b.blocks[br]["term"].get("span")),
+                     "a file section of the diff is skipped under `%s` (arm %s): only sections that delete the whole file (unidiff's `is_removed_file()`) may be left out; a modified file skipped here is never parsed, so neither its changed blocks nor its unbalanced tags are reported" % (txt[:140], sorted(map(str, vals))))
+        if ok:
+            n += 1
+    out.inst(rule, n, 1, cands)
+
+
 def check_queue(ctx, out):
     """FIFO discipline of the deleted-line queue and flush at every hunk end."""
     n = 0
@@ -413,6 +460,7 @@ def run(ctx, out, tier):
     check_search(ctx, out)
     check_affects(ctx, out)
     check_prefix(ctx, out)
+    check_skipfile(ctx, out)
     # "a block counts as modified exactly when the diff touches it": the per-block decision table and
     # its statelessness (shared with C02)
     from rules.C02 import check_filter
@@ -425,6 +473,7 @@ def run(ctx, out, tier):
     bodies = [b for b in ctx.reachable_bodies() if b.id.startswith("blockwatch::diff_parser::") or "validators::affects" in b.id or b.id.startswith("blockwatch::blocks::") or b.id.startswith("bwbin::")]
     shared.sh_err(ctx, out, bodies, floor=40)
     shared.sh_main(ctx, out)
+    shared.sh_traverse(ctx, out)
     return meta()
 
 
